@@ -1,7 +1,7 @@
 SPECIFICATION Spec
 CONSTANTS
   Skeletons = {"root","prop","item","or","ref","refor"}
-  Bounds = {3, 6, 9, 14}
+  Bounds = {3, 4, 6, 9, 14}
   Kinds = {"num","str","arr"}
 INVARIANTS TypeOK NoRulesAccepted Emit
 CHECK_DEADLOCK FALSE
